@@ -313,6 +313,8 @@ def check(pid, tier):
         for u in units:
             binp, pkgdir = built[u["name"]]
             for j in list_jobs(u, binp, pkgdir, tier):
+                if os.environ.get("VERIF_ONLY") and not re.search(os.environ["VERIF_ONLY"], u["name"] + "/" + j):
+                    continue  # development aid: run a subset of the jobs (the evidence then covers only those)
                 tasks.append((u, binp, pkgdir, j))
         deadline = time.time() + budget
         results = []
@@ -374,7 +376,9 @@ def aggregate(pid, tier, spec, results, sdir, t0, t_build):
         for n in res.get("notes") or []:
             notes.append("%s/%s: %s" % (jr["unit"], jr["job"], n))
         for k, v in (res.get("bounds") or {}).items():
-            bounds.setdefault(jr["unit"], {})[k] = v
+            vs = bounds.setdefault(jr["unit"], {}).setdefault(k, [])
+            if v not in vs:
+                vs.append(v)
         for k, v in (res.get("counters") or {}).items():
             counters[k] = counters.get(k, 0) + v
         for s in (res.get("samples") or [])[:3]:
@@ -392,6 +396,10 @@ def aggregate(pid, tier, spec, results, sdir, t0, t_build):
                     "exhaustive": res.get("exhaustive", True)})
         jobs_tbl.append(row)
 
+    for u in bounds:
+        for k in bounds[u]:
+            if len(bounds[u][k]) == 1:
+                bounds[u][k] = bounds[u][k][0]
     known = {k["key"]: k for k in load_known() if k.get("property") == pid}
     new, old = [], []
     for key in sorted(viols):
